@@ -220,6 +220,26 @@ def s3_counter(ctx, rid, fx, cls, counter, handshake, what=""):
     return len(asg)
 
 
+def s3_word_flags(ctx, rid, fx, cls):
+    """first / last of the wide word being assembled by an up-converting element (next-value formula of the 1-bit registers,
+    q.value_formula): restarted from the incoming beat when the previous word leaves in the same cycle, cleared when it leaves
+    alone, accumulated while the word fills, held otherwise."""
+    Hout, Hin_ = B.from_expr("self.source.valid & self.source.ready"), B.from_expr("self.sink.valid & self.sink.ready")
+    n = 0
+    for flag in ("first", "last"):
+        cur, inc = B.A(f"self.source.{flag}"), B.A(f"self.sink.{flag}")
+        asg = fx.find(domain="sync", target=f"self.source.{flag}")
+        nv = q.value_formula(fx, asg, default=cur) if asg else None
+        want = B.Or(B.And(Hout, Hin_, inc), B.And(B.Not(Hout), Hin_, B.Or(inc, cur)), B.And(B.Not(Hout), B.Not(Hin_), cur))
+        ok = nv is not None and B.equivalent(nv, want)
+        n += 1
+        ctx.ob(rid, fx.rel, cls, f"source.{flag}: restarted / cleared / accumulated with the word", ok,
+               "" if ok else f"next source.{flag} = {short(B.show(nv), 200) if nv is not None else '?'}; e.g. "
+                             f"{(B.counterexample(nv, want) or B.counterexample(want, nv)) if nv is not None else ''}: the flag of the previous word leaks "
+                             f"into the next one / is lost", asg[0].line if asg else 0)
+    return n
+
+
 def s_range(ctx, rid, fx, cls, reg):
     """Occupancy register `reg`, declared Signal(max=M), i.e. able to hold 0..M-1 only: every sync update reg <= reg + d happens
     under a guard that entails comparisons of `reg` against thresholds which keep reg + d inside [0, M-1] (linear forms over the
